@@ -184,6 +184,9 @@ end Bandit
     bandit hook                             init_params → ok
     bandit mutate <n'>                      arch + hook → ok
     bandit clone | bandit reload            → ok
+    bandit fork                             clone() with the parent kept alive; the copy is selected → its index
+    bandit sel <i>                          select live agent i (the session starts with agent 0) → ok
+    bandit live                             → number of live agents
     bandit sizes                            → "<outNumel> <numel> <rows> <wellshaped 0/1>"
     bandit count                            → number of updates since the last initialisation
     bandit dump                             → all entries of sigma_inv, row major, exact
@@ -194,8 +197,12 @@ end Bandit
 namespace Bandit
 open Util
 
+/-- `agent` is the selected agent; `slots` holds every live agent of the session (the selected one
+    is written back on `sel` / `fork`), so that a parent and its clones can be driven alternately -/
 structure IOState where
   agent : Option Agent := none
+  slots : List Agent := []
+  cur   : Nat := 0
 
 def parseSem? : String → Option Sem
   | "code" => some .code
@@ -214,7 +221,7 @@ def step (s : IOState) : List String → IOState × String
     match parseSem? sem, parseRat? lamb, parseNat? n with
     | some sem, some lamb, some n =>
       if lamb ≤ 0 then (s, "reject")           -- `assert lamb > 0` in the constructor
-      else ({ s with agent := some (Agent.mk0 sem lamb n) }, "ok")
+      else ({ agent := some (Agent.mk0 sem lamb n), slots := [Agent.mk0 sem lamb n], cur := 0 }, "ok")
     | _, _, _ => (s, "bad-op")
   | op :: args =>
     match s.agent with
@@ -243,6 +250,18 @@ def step (s : IOState) : List String → IOState × String
         | some n => ({ s with agent := some (a.mutate n) }, "ok")
         | none => (s, "bad-op")
       | "clone", [] => ({ s with agent := some a.clone }, "ok")
+      | "fork", [] =>          -- `clone()` with the parent staying alive: the copy (by value) is selected
+        let slots := s.slots.set s.cur a
+        ({ agent := some a.clone, slots := slots ++ [a.clone], cur := slots.length }, toString slots.length)
+      | "sel", [i] =>
+        match parseNat? i with
+        | some i =>
+          let slots := s.slots.set s.cur a
+          match slots[i]? with
+          | some b => ({ agent := some b, slots := slots, cur := i }, "ok")
+          | none => (s, "bad-op")
+        | none => (s, "bad-op")
+      | "live", [] => (s, toString s.slots.length)
       | "reload", [] => ({ s with agent := some a.reload }, "ok")
       | "sizes", [] =>
         (s, s!"{a.outNumel} {a.numel} {a.sigmaInv.length} {showBool (decide (WellShaped a.numel a.sigmaInv))}")
